@@ -6,7 +6,7 @@ VALUE_H = ['value_laws_.*', 'value_int_order_is_numeric', 'value_float_order_is_
 
 COMMON_TRUST = [
     'Verus 0.2026.09.13 + Z3, rustc 1.98.1 front end; Kani 0.68 / CBMC 6.11 for the scalar kernels',
-    'extraction rules E1-E5 of DESIGN.md section 4 (vx/extract.py): the verified text is cut from /repo on every run; the rules that fired are listed under coverage.units',
+    'extraction rules E1-E6 of DESIGN.md section 4 (vx/extract.py): the verified text is cut from /repo on every run; the rules that fired are listed under coverage.units',
 ]
 
 CHECKS = {
@@ -15,7 +15,7 @@ CHECKS = {
         'clause_prefixes': ['c10', 'next.', 'new.', 'lemma.'],
         'technique': 'contract-based deductive verification (Verus) of the extracted FollowFileIterator, reader modelled by a nondeterministic callee contract, history lemma over the contract',
         'claim': 'Proof for all chunkings/poll placements/buffer sizes of the per-call contract of FollowFileIterator::next (Some(s) = exactly the old partial line plus the bytes consumed up to and including the first newline, verbatim; None = nothing lost) and of the start position chosen by FollowFileExecutor::new; lemmas lift it to exactly-once, in-order delivery over any history. Partial correctness; the reader is a specified stand-in.',
-        'note': 'Trusted: std BufRead::read_until / Seek / from_utf8_lossy contracts on the VReader stand-in, extraction rules E1-E5, Verus+Z3. FollowFileExecutor::execute (the consuming loop) is proved in unit executor to hand every delivered line to the query once, in order, until LIMIT / error / interrupt. Not covered: OS file semantics (truncation, rotation).',
+        'note': 'Trusted: std BufRead::read_until / Seek / from_utf8_lossy contracts on the VReader stand-in, extraction rules E1-E6, Verus+Z3. FollowFileExecutor::execute (the consuming loop) is proved in unit executor to hand every delivered line to the query once, in order, until LIMIT / error / interrupt. Not covered: OS file semantics (truncation, rotation).',
         'level': 'proof',
         'explanation': 'FollowFileIterator::new/next and FollowFileExecutor::new are extracted from /repo and verified by Verus against a '
                        'reader stand-in whose read_until may return any chunk (all writer chunkings, poll placements and buffer sizes are '
@@ -76,7 +76,7 @@ CHECKS['C09'] = {
     'clause_prefixes': ['c09'],
     'technique': 'contract-based deductive verification (Verus): absence of arithmetic overflow, division by zero, failed callee preconditions (unwrap, indexing, unreachable!) in every extracted function',
     'claim': 'Proof that the extracted functions (listed in the evidence) cannot overflow, divide by zero, index out of bounds, unwrap None or reach unimplemented!/panic! for any input; this is the safety half of the obligations of the other checks, collected per function. Functions not under contract are listed as unproved.',
-    'note': 'Trusted: as for the units involved. Termination is proved only where a decreases clause exists. Not covered: OutputPrinter, execute_result table assembly, tokenizer/parser, chrono internals, local time zone handling.',
+    'note': 'Trusted: as for the units involved. Termination is proved only where a decreases clause exists. Not covered: OutputPrinter, the grammar functions of the parser, chrono internals, local time zone handling.',
     'level': 'proof',
     'explanation': 'Verus generates, for every extracted function, the obligations that each arithmetic operation fits its type, each divisor is non-zero, each index is in bounds and each callee precondition (including `requires false` of the unimplemented!/panic! stand-in) holds; this check counts exactly those.',
     'trusted': COMMON_TRUST,
@@ -161,24 +161,24 @@ CHECKS['C02'] = {
 CHECKS['C13'] = {
     'verus_units': ['parser', 'tokenizer'],
     'clause_prefixes': ['c13'],
-    'technique': 'contract-based deductive verification (Verus): BinaryOperators::new / get, Parser::get_token_precedence and Parser::parse_unary_operator extracted from /repo; the precedence numbers are read from the source on every run, the functions are proved to use exactly them, and a lemma proves that the numbers realise the standard SQL chain',
-    'claim': 'Proof that the precedence table the parser consults (symbolic operators, IS/IN/AND/OR keywords, ::, [ ]) and the operand levels of prefix NOT and unary minus realise OR < AND < NOT < comparisons = IS = IN < + - < * / < unary minus <= :: = [ ] <= qualified names, and that get_token_precedence / parse_unary_operator use exactly these numbers. The body of parse_binary_operator_rhs is verified too, with the textbook invariant of precedence climbing as an in-body obligation: the right operand of an operator of level p is extended only through a recursive call with minimum level p + 1 (tighter operators only, equal levels associate to the left). NOT covered: a full proof that the resulting tree is the reference grouping, the tokenizer, and one-element IN lists - repaired and demonstrated by replays only.',
+    'technique': 'contract-based deductive verification (Verus): BinaryOperators::new / get, Parser::get_token_precedence, Parser::parse_unary_operator and tokenize extracted from /repo; the precedence numbers are read from the source on every run, the functions are proved to use exactly them, and a lemma proves that the numbers realise the standard SQL chain',
+    'claim': 'Proof that the precedence table the parser consults (symbolic operators, IS/IN/AND/OR keywords, ::, [ ]) and the operand levels of prefix NOT and unary minus realise OR < AND < NOT < comparisons = IS = IN < + - < * / < unary minus <= :: = [ ] <= qualified names, and that get_token_precedence / parse_unary_operator use exactly these numbers. The body of parse_binary_operator_rhs is verified too, with the textbook invariant of precedence climbing as an in-body obligation: the right operand of an operator of level p is extended only through a recursive call with minimum level p + 1 (tighter operators only, equal levels associate to the left). The tokenizer (unit tokenizer) is proved to fuse two operator characters only when they are adjacent in the text and only for the pairs listed in the source, which a lemma pins to <= >= != -- (and =>): an operator followed by a minus sign stays two tokens. NOT covered: a full proof that the resulting tree is the reference grouping, and one-element IN lists - repaired and demonstrated by replays only.',
     'note': 'Trusted: HashMap<Operator, BinaryOperator> as a finite map (VOpMap), derived Token equality, parse_binary_operator_rhs / parse_primary_expression as stand-ins that only record the minimum precedence they are called with. A renumbering of the levels that keeps the order verifies; a change of the order fails the lemma.',
     'level': 'proof',
     'explanation': 'Table-level proof (DESIGN C13): self-generated conditions - constants P_* are cut from the source text, the extracted functions must return them, lemma_precedence_chain relates them as the property demands.',
     'trusted': COMMON_TRUST + ['parse_primary_expression / parse_expression_internal are stand-ins; the recursive call of parse_binary_operator_rhs is a stand-in that records its minimum level'],
-    'unproved': ['reference-grouping correctness of the whole expression parser', 'tokenizer operator fusion', 'parenthesised tuple / one-element IN handling'],
+    'unproved': ['reference-grouping correctness of the whole expression parser', 'parenthesised tuple / one-element IN handling', 'keyword table content (KEYWORDS) and IS NOT / NOT IN keyword fusion'],
 }
 CHECKS['C14'] = {
     'verus_units': ['parser', 'tokenizer'],
     'clause_prefixes': ['c14'],
-    'technique': 'contract-based deductive verification (Verus) of the parser\'s token cursor (Parser::new/next/current/current_location/create_error/expect_token/expect_and_consume_token, ParserError::new) extracted from /repo',
-    'claim': 'Proof (cursor kernel only) that once the first next() succeeded the cursor stays inside the token vector, next() at the end is an error and not a step, current()/current_location() never index out of bounds and every error created carries the location of a real token. "Any text yields a statement or a located error" for the whole tokenizer and recursive-descent parser is NOT decided. TokenLocation::extract_near is not under contract (a bounded Kani harness over 4-character lines did not terminate within 600 s and was dropped).',
-    'note': 'Trusted: tokenize() always appends Token::End (precondition tokens.len() >= 1), Vec length <= isize::MAX. Unproved: tokenizer, all parse_* functions except parse_unary_operator, parser_tree_converter (transform_call_aggregate), TableDefinition::new; the panics found there (extract_near underflow, empty JSON path, string_agg arity) were repaired and are demonstrated by replays.',
+    'technique': 'contract-based deductive verification (Verus) of tokenize (with its local TokenizerState), TokenLocation::extract_near and the parser\'s token cursor (Parser::new/next/current/current_location/create_error/expect_token/expect_and_consume_token, ParserError::new) extracted from /repo',
+    'claim': 'Proof for every text that tokenize cannot panic, that the line/column it keeps are the position of the consumed prefix, that every token and every tokenizer error is located inside the text (the position of some offset 0..=len) and that the token vector ends with Token::End; proof that TokenLocation::extract_near cannot panic for any location and text (every word range lies inside the line, no index underflow); proof (cursor kernel) that once the first next() succeeded the parser cursor stays inside the token vector, next() at the end is an error and not a step, current()/current_location() never index out of bounds and every error created carries the location of a real token. "Any text yields a statement or a located error" for the recursive-descent grammar functions and the tree converter is NOT decided.',
+    'note': 'Trusted: Peekable<Chars> as a cursor over the character sequence (VChars), Unicode class predicates uninterpreted (a line break is not alphanumeric), str::lines().nth / chars().collect / String::from_iter(&v[a..b]) / format! as stand-ins with the slice-range precondition, Vec length <= usize::MAX. Termination of the tokenizer loops is not proved. Unproved: all parse_* functions except parse_unary_operator, parser_tree_converter (transform_call_aggregate), TableDefinition::new; the panics found there (extract_near underflow, empty JSON path, string_agg arity) were repaired and are demonstrated by replays.',
     'level': 'proof',
-    'explanation': 'Cursor safety is the invariant 0 <= index < tokens.len() established by next() and required by every accessor.',
+    'explanation': 'Tokenizer: loop invariant at_offset(state, text, n) (rest of the iterator = text.skip(n), line = number of line breaks and column = characters after the last line break of text.take(n)); next_char and add carry it in universally quantified postconditions. Cursor safety is the invariant 0 <= index < tokens.len() established by next() and required by every accessor.',
     'trusted': COMMON_TRUST,
-    'unproved': ['tokenize', 'Parser::parse_* (grammar)', 'parser_tree_converter', 'TokenLocation::extract_near'],
+    'unproved': ['Parser::parse_* (grammar)', 'parser_tree_converter', 'TableDefinition::new'],
 }
 
 CHECKS['C12'] = {
@@ -242,5 +242,5 @@ CHECKS['C05'] = {
 NOT_APPLICABLE = {
     'C17': 'Printed records: OutputPrinter::print / Display for Value / JSON rendering are format!/write!/serde_json string construction; Verus has no specification of formatted output and rejects the constructs, Kani does not terminate on string code here. No contract within reach expresses the property.',
     'C18': 'Determinism / hash-seed independence is a 2-safety property over runs whose only threat is iteration over std HashMap; the iterating functions are outside Verus\' accepted subset and Kani must stub RandomState to a constant, which assumes the property away.',
-    'C20': 'Layout/case/clause-order insensitivity relates two parses through the tokenizer (Peekable<Chars>, lazy_static maps) and the recursive-descent parser, both outside what either verifier accepts; no contract within reach expresses it.',
+    'C20': 'Layout/case/clause-order insensitivity is a relation between the parses of TWO texts. The contracts within reach are per call: tokenize is under contract for positions, the End token and operator fusion (unit tokenizer), but relating two runs needs a complete functional specification of the token sequence (keyword table behind lazy_static, string escapes, comments, IS NOT / NOT IN fusion) plus an induction over a stateful scanner and over the recursive-descent clause loop, whose functions (Parser::parse_*, Box/Vec-building tree code, format!) are outside the subset Verus accepts here; a specification that complete would restate the tokenizer and parser rather than the property. No contract within reach decides it.',
 }
